@@ -13,6 +13,9 @@ import (
 type Slot struct {
 	Text    string
 	Defined bool
+	// Padding marks a slot that exists only because an import declared a max_id beyond the
+	// shared table's length (or the table is absent): its text is undefined, never "".
+	Padding bool
 }
 
 // Table is a symbol ID space; Slots[0] is SID 1.
@@ -26,7 +29,7 @@ var systemTexts = []string{"$ion", "$ion_1_0", "$ion_symbol_table", "name", "ver
 func System() *Table {
 	t := &Table{}
 	for _, s := range systemTexts {
-		t.Slots = append(t.Slots, Slot{s, true})
+		t.Slots = append(t.Slots, Slot{Text: s, Defined: true})
 	}
 	return t
 }
@@ -89,9 +92,9 @@ func ImportSlots(sh *Shared, max int64) []Slot {
 	out := make([]Slot, 0, max)
 	for i := int64(0); i < max; i++ {
 		if sh != nil && i < int64(len(sh.Symbols)) && sh.Symbols[i] != "" {
-			out = append(out, Slot{sh.Symbols[i], true})
+			out = append(out, Slot{Text: sh.Symbols[i], Defined: true})
 		} else {
-			out = append(out, Slot{})
+			out = append(out, Slot{Padding: sh == nil || i >= int64(len(sh.Symbols))})
 		}
 	}
 	return out
@@ -335,7 +338,7 @@ func processLST(v *rm.Value, ctx *Table, cat Catalog) (*Table, *TableInfo, error
 	if symbolsV != nil && !symbolsV.Null && symbolsV.Type == rm.List {
 		for _, s := range symbolsV.Kids {
 			if s.Type == rm.String && !s.Null {
-				sl := Slot{s.Text, true}
+				sl := Slot{Text: s.Text, Defined: true}
 				nt.Slots = append(nt.Slots, sl)
 				info.Symbols = append(info.Symbols, sl)
 			} else {
